@@ -428,3 +428,17 @@ pub fn for_family(f: &dyn Family, visit: &(dyn Fn(&Pos) + Sync)) -> u64 {
 
 pub const MAT3_SIGS: &[&str] = &["KQk", "KRk", "KBk", "KNk", "KPk", "Kkq", "Kkr", "Kkb", "Kkn", "Kkp"];
 pub const MAT4_SIGS: &[&str] = &["KQkr", "KRkb", "KRkn", "KPkp", "KBNk", "KNNk", "KRRk", "KQQk", "KBBk", "KPPk", "KQkq"];
+
+/// every `stride`-th index of a family (deterministic sub-lattice)
+pub struct Strided<'a>(pub &'a dyn Family, pub u64);
+impl<'a> Family for Strided<'a> {
+    fn name(&self) -> String {
+        format!("{} (every {}th index)", self.0.name(), self.1)
+    }
+    fn len(&self) -> u64 {
+        self.0.len() / self.1
+    }
+    fn decode(&self, i: u64) -> Option<Pos> {
+        self.0.decode(i * self.1)
+    }
+}
